@@ -21,7 +21,7 @@ SPEC_FUNCS = {"implies", "iff", "old", "forall", "exists", "isdict", "islist", "
               "isobj", "isnum", "to_real", "is_decimal_str", "str_to_int", "int_to_str", "haskey", "content_eq",
               "istuple", "iscallable", "seq_eq_upto", "strlen", "lower_ascii", "keys_subset", "real",
               "list_eq", "is_exc", "no_new_keys", "trunc", "AP", "RP", "EPT", "INSTANT", "NOW", "RFC3339_OK", "rmax", "rmin",
-              "istrue"}
+              "istrue", "NAIVE"}
 
 BUILTIN_FUNCS = {
     "len", "isinstance", "int", "str", "float", "bool", "min", "max", "abs", "dict", "list", "tuple", "set",
@@ -305,7 +305,7 @@ def _call_method(ex, st, ctx, recv, name, args, kwargs, node):
     elif dk is not None:
         tag = dk
     if tag == "opq":
-        return _opaque_method(ex, st, ctx, recv, name, args, node)
+        return _opaque_method(ex, st, ctx, recv, name, args, node, kwargs)
     if tag == "str" or (tag is None and name in STR_METHODS and name not in DICT_METHODS | LIST_METHODS):
         if name not in STR_METHODS:
             ex.raise_if(st, ctx, z3.BoolVal(True), "AttributeError", node=node)
@@ -347,7 +347,7 @@ def _call_method(ex, st, ctx, recv, name, args, kwargs, node):
                              lambda x: list_method(ex, x, ctx, recv, name, args, kwargs, node))
     if tag is None and not is_false(z3.And(st.pc, is_Opq(recv))):
         # unknown value that may be an opaque external object
-        return ex.branch_val(st, is_Opq(recv), lambda x: _opaque_method(ex, x, ctx, recv, name, args, node),
+        return ex.branch_val(st, is_Opq(recv), lambda x: _opaque_method(ex, x, ctx, recv, name, args, node, kwargs),
                              lambda x: _unknown_method(ex, x, ctx, recv, name, node))
     return _unknown_method(ex, st, ctx, recv, name, node)
 
@@ -357,12 +357,20 @@ def _unknown_method(ex, st, ctx, recv, name, node):
     return VNone
 
 
-def _opaque_method(ex, st, ctx, recv, name, args, node):
+def _opaque_method(ex, st, ctx, recv, name, args, node, kwargs=None):
     """Methods of external objects (datetime, spans, futures...): pure, total, opaque (assumption A2)."""
     ex.trusted.add("opaque-method:." + name)
     if name == "timestamp":
         b = _B()
         return VFloat(b.u_timestamp(oid(recv)))
+    if name == "replace" and set(kwargs or {}) == {"tzinfo"}:
+        # naive.replace(tzinfo=tz): the aware datetime whose instant is NAIVE - offset (A2)
+        b = _B()
+        o = fresh("aware_dt", I)
+        tz = kwargs["tzinfo"]
+        ex.assume(st, z3.Implies(is_Opq(tz), b.u_timestamp(o) == z3.Function("u_naive_of", I, R)(oid(recv))
+                                 - z3.Function("u_tz_offset", I, R)(oid(tz))))
+        return VOpq(o)
     if name in ("isoformat", "decode", "hexdigest", "format_exc"):
         return VStr(fresh("opqstr_" + name, S))
     return VOpq(fresh("opq_" + name, I))
@@ -469,6 +477,11 @@ def _strip_ws(ex, s):
                                  z3.Or(z3.Length(r) == 0,
                                        z3.And(z3.Not(z3.InRe(z3.SubString(r, 0, 1), nows)),
                                               z3.Not(z3.InRe(z3.SubString(r, z3.Length(r) - 1, 1), nows))))))
+    # derived fact (saves the solver the induction): nothing to strip => identity
+    ex.assumptions.append(z3.Implies(z3.And(z3.Length(s) > 0,
+                                            z3.Not(z3.InRe(z3.SubString(s, 0, 1), nows)),
+                                            z3.Not(z3.InRe(z3.SubString(s, z3.Length(s) - 1, 1), nows))),
+                                     z3.And(r == s, a == sv(""), c == sv(""))))
     return r
 
 
